@@ -366,6 +366,7 @@ func main() {
 	if fuzzNote != "" {
 		fmt.Println(fuzzNote)
 	}
+	os.RemoveAll(tmp) // os.Exit below skips the deferred clean-up
 	if len(violations) > 0 {
 		for _, v := range violations {
 			fmt.Printf("VIOLATION property=%s replay=%s\n", id, v)
